@@ -37,7 +37,7 @@ ASSUMPTIONS = [
     "a field value 'changes' when it is replaced by another object that is not an equal value of the same type; node-valued fields must keep the identical object",
     "registry membership may change only as specified for detach / replace (C03's subject) and is not part of the frame",
 ]
-MUST_SEE = ["origin_algebra_on_node_origins", "comparisons_with_equal_but_distinct_origin_objects", "compiled_xpath_reused", "mutable_container_in_property", "list_valued_tuple_fields", "hash_churn_rounds", "copy_protocol_ops", "digest_size_switches", "ops", "frames_checked", "raising_ops", "watched_writes_on_new_nodes", "setattr_rejected", "delattr_rejected", "repo_tests_contract_evaluations", "deserialize_registry_hits", "failing_replace_on_suffix_twin", "transform_returns_existing_node", "transform_rebuilds_equal_node"]
+MUST_SEE = ["registry_membership_checked", "tagless_payload_read_while_alive", "origin_algebra_on_node_origins", "comparisons_with_equal_but_distinct_origin_objects", "compiled_xpath_reused", "mutable_container_in_property", "list_valued_tuple_fields", "hash_churn_rounds", "copy_protocol_ops", "digest_size_switches", "ops", "frames_checked", "raising_ops", "watched_writes_on_new_nodes", "setattr_rejected", "delattr_rejected", "repo_tests_contract_evaluations", "deserialize_registry_hits", "failing_replace_on_suffix_twin", "transform_returns_existing_node", "transform_rebuilds_equal_node"]
 CONFIG = {
     "quick": {"shards": 16, "histories": 30, "ops": 35, "watchdog_s": 600},
     "thorough": {"shards": 32, "histories": 200, "ops": 60, "watchdog_s": 3400},
@@ -447,6 +447,11 @@ def histories(ctx, U, state, take_frame, diff_frame):
                 opts[SerializationOption.SORT_KEYS] = True
             if rng.random() < 0.2:
                 opts[AST_SERIALIZE_DIALECT_KEY] = rng.choice(list(ASTSerializationDialects))
+            skip_class_alive = not opts and rng.random() < 0.25
+            if skip_class_alive:
+                # tag-less payload read back (with the same option) while every serialized node is alive and registered
+                opts[SerializationOption.SKIP_CLASS] = True
+                ctx.count("tagless_payload_read_while_alive")
             fmt = rng.choice(["dict", "json", "msgpck", "yaml"])
             so = dict(opts) or None
             C = type(n)
@@ -459,9 +464,12 @@ def histories(ctx, U, state, take_frame, diff_frame):
                 payload = n.to_msgpck(serialization_options=so)
             else:
                 payload = n.to_yaml(serialization_options=so)
-            if opts.get(AST_SERIALIZE_DIALECT_KEY) is not None or (SerializationOption.SKIP_CLASS in opts):
+            if opts.get(AST_SERIALIZE_DIALECT_KEY) is not None:
                 return
+            if skip_class_alive:
+                mode = "alive"
             plain = n.as_dict() if fmt == "dict" else None
+            state["membership_may_change"] = mode != "alive"
             if mode == "detached":
                 n.detach_self()  # the root is rebuilt, its children are registry hits
             elif mode == "subtree-detached":
@@ -472,13 +480,13 @@ def histories(ctx, U, state, take_frame, diff_frame):
                 ctx.count("deserialize_registry_hits")
             try:
                 if fmt == "dict":
-                    r = C.as_obj(payload)
+                    r = C.as_obj(payload, serialization_options=so if skip_class_alive else None)
                 elif fmt == "json":
-                    r = C.from_json(payload)
+                    r = C.from_json(payload, serialization_options=so if skip_class_alive else None)
                 elif fmt == "msgpck":
-                    r = C.from_msgpck(payload)
+                    r = C.from_msgpck(payload, serialization_options=so if skip_class_alive else None)
                 else:
-                    r = C.from_yaml(payload)
+                    r = C.from_yaml(payload, serialization_options=so if skip_class_alive else None)
                 if r is not n:
                     handles.append(r)
             except Exception:  # noqa: BLE001
@@ -562,6 +570,9 @@ def histories(ctx, U, state, take_frame, diff_frame):
             snap_extra.clear()
             snap = take_frame(U, handles)
             state["pre"] = set(snap)
+            # registry membership of every pre-existing node: only detach / replace (and the harness' own detaching) may change it
+            state["membership_may_change"] = op.__name__ in ("op_detach", "op_replace_ok", "op_replace_fail", "op_twins", "op_copy")
+            member = {k: (ASTNode.get_any(v[0].id) is v[0]) for k, v in snap.items()}
             del state["hits"][:]
             raised = None
             try:
@@ -580,6 +591,11 @@ def histories(ctx, U, state, take_frame, diff_frame):
                 ctx.sample({"operation": op.__name__, "pre_existing_nodes": len(snap), "raised": raised})
             snap.update(snap_extra)
             d = diff_frame(snap)
+            if not d and not state["membership_may_change"] and raised is None:
+                ctx.count("registry_membership_checked")
+                lost = [type(v[0]).__name__ for k, v in snap.items() if member.get(k) and ASTNode.get_any(v[0].id) is not v[0]]
+                if lost:
+                    d = f"{len(lost)} pre-existing node(s) ({', '.join(sorted(set(lost))[:4])}) are no longer returned by lookup under their id, although the operation is neither detach nor replace"
             if d:
                 ctx.violation("frame", f"{op.__name__} modified a pre-existing node: {d}", {"operation": op.__name__, "raised": raised, "log": log[-10:]})
                 break
